@@ -327,7 +327,9 @@ def ref_names(info):
     if ps is None:
         ps = normalizeStringForPostscript("%s-%s" % (pfam, psub), allowSpaces=False)
     vendor = info.get("openTypeOS2VendorID", "NONE")
-    uid = info.get("openTypeNameUniqueID", "%s;%s;%s" % (version.replace("Version ", ""), vendor, ps))
+    # the unique ID starts with the version string without its "Version " label (the generated strings carry the label at most
+    # once, at the start, so "without the label" has one reading)
+    uid = info.get("openTypeNameUniqueID", "%s;%s;%s" % (version[len("Version "):] if version.startswith("Version ") else version, vendor, ps))
     names = {1: smfn, 2: smsn.title(), 3: uid, 4: "%s %s" % (pfam, psub), 5: version,
              6: normalizeStringForPostscript(ps) if ps else ps, 16: pfam, 17: psub}
     resolved = dict(names)
@@ -360,6 +362,13 @@ def names_and_totality(ctx):
             info["versionMinor"] = rng.choice([0, 1, 5, 50, 999])
         if rng.random() < 0.2:
             info["postscriptFontName"] = rng.choice(["MyFont-Regular", "Custom_PS", "Foo-BoldItalic"])
+        if i % 4 == 1:
+            # an explicit version string: with the usual label, and free-form ones (made of letters of the word "Version",
+            # starting with a blank, without any label)
+            info["openTypeNameVersion"] = ["Version 2.500", "revision 3", "snapshot-7", " 1.500", "1.0", "Version 1.002;beta", "ver 5",
+                                           "no version"][(i // 4) % 8]
+        if i % 8 == 3:
+            info["openTypeNameUniqueID"] = "explicit;unique;id"
         if rng.random() < 0.3:
             info["openTypeOS2VendorID"] = rng.choice(["ABCD", "XY", "G"])
         extra = {}
